@@ -165,7 +165,10 @@ impl Lexicon {
                 ReadFieldResult::End => break,
             };
             if record_end {
-                if field_cnt == 0 && nin == 0 {
+                if field_cnt == 0 && bytes[..nin].iter().all(|&b| b == b'\n' || b == b'\r') {
+                    // Nothing or only blank lines have been consumed at the end of the input.
+                    record_end_pos = 0;
+                    bytes = &bytes[nin..];
                     continue;
                 }
                 if field_cnt <= 3 {
